@@ -313,7 +313,8 @@ def check(ctx, p):
             for dbb, di, item in defs:
                 if di == "term":
                     continue
-                v = eb.at(dbb, di).rvalue(item["rv"])
+                from ..loops import enumerate_as_range
+                v = enumerate_as_range(eb.at(dbb, di).rvalue(item["rv"]))
                 if v[0] == "c" and float(v[1]) == 0.0:
                     init = (dbb, di)
                 elif v[0] == "bin" and v[1] == "Add" and v[2][0] == "var" and v[2][1] == dl:
